@@ -55,7 +55,7 @@ var profiles = map[string]Profile{
 	// C05: crash points of commits, deletions, rollbacks and index builds, small flush thresholds
 	"C05": {Name: "C05", MinOps: 8, MaxOps: 30, Keys: 8, EmptyVals: true, ObsEvery: 0, ToggleFast: true,
 		Initials: []int64{-1, -1, 7},
-		W:        map[string]int{"set": 45, "rm": 15, "save": 2, "wsave": 5, "crashsave": 14, "crashprune": 6, "crashlvfo": 4, "crashreopen": 3, "rollback": 2, "reopen": 2}},
+		W:        map[string]int{"set": 45, "rm": 15, "save": 2, "wsave": 5, "ctab": 6, "crashsave": 14, "crashprune": 6, "crashlvfo": 4, "crashreopen": 3, "rollback": 2, "reopen": 2}},
 	// C17: storage faults at every call position
 	"C17": {Name: "C17", MinOps: 8, MaxOps: 30, Keys: 8, EmptyVals: false, ObsEvery: 0,
 		Initials: []int64{-1, -1, 7},
